@@ -8,6 +8,7 @@
   form, evaluated by the harness on every generated input, and `wf_of_wfB` links the two.
 -/
 import Proofs.Lemmas.AoefRoundtrip
+import Proofs.Lemmas.AoefC01Dir
 import SoundeventModel.Aoef.File
 namespace SE.Proofs.C01
 open SE SE.Aoef SE.Paths
@@ -84,6 +85,19 @@ example : let c : Collection := .recordingSet
               recordings := [exRec, { exRec with duration := "2.5" }] }
           wfB c = false ∧ cycles none none 1 c ≠ .ok c := by decide +kernel
 
+/-- the third clause of `WF` (distinct members) is what the code needs for `Evaluation` only: its
+    `clip_evaluations` are written from the de-duplicated adapter table, so the same clip evaluation
+    listed twice comes back once; the member lists the code writes *as given* (recordings, clip
+    annotations, clip predictions, tasks) come back as given.  (The harness checks on every run that
+    the real code behaves like the model on such inputs: operation `roundtrip_dup`.) -/
+example : let c : Collection := .evaluation
+            { uuid := "e1", created_on := "2020", evaluation_task := "sed", clip_evaluations := [exCE, exCE] }
+          wfB c = false ∧ cycles none none 1 c
+            = .ok (.evaluation { uuid := "e1", created_on := "2020", evaluation_task := "sed",
+                                 clip_evaluations := [exCE] }) := by decide +kernel
+example : let c : Collection := .recordingSet { uuid := "rs", created_on := "2020", recordings := [exRec, exRec] }
+          wfB c = false ∧ cycles none none 2 c = .ok c := by decide +kernel
+
 /-! ### the link between the executable check and the hypothesis -/
 theorem C01_wf_of_wfB (c : Collection) (h : wfB c = true) : WF c := wf_of_wfB c h
 example : wfB exEval = true := wfB_exEval
@@ -142,6 +156,81 @@ theorem C01_fixpoint_dir (c : Collection) (A : PPath) (hwf : WF c)
   exact cycles_fix hs hl
 example : WF exProject ∧ ∀ r ∈ recsOf exProject.trav, inside r.path exDir :=
   ⟨wf_exProject, inside_exProject⟩
+
+/-! ### relative recording paths under a relative audio directory
+
+`inside p A` is `p.root = A.root ∧ A.parts <+: p.parts`: the hypotheses of `C01_roundtrip_dir`,
+`C01_relocate` and `C01_fixpoint_dir` are satisfied by relative paths under a relative directory
+(both roots `""`) exactly as by absolute ones.  The statements below make that clause of the
+quantifier ("with and without an audio directory") explicit and give it concrete witnesses. -/
+
+/-- `exEval` with every recording path made relative: `data/night/a.wav` -/
+def exEvalRel : Collection := exEval.mapPath (fun p => ⟨"", p.parts⟩)
+/-- the relative audio directory `data` -/
+def exRelDir : PPath := ⟨"", ["data"]⟩
+
+theorem wf_exEvalRel : WF exEvalRel := wf_of_wfB _ (by decide +kernel)
+theorem inside_exEvalRel : ∀ r ∈ recsOf exEvalRel.trav, inside r.path exRelDir ∧ r.path.root = "" := by
+  decide +kernel
+
+/-- relative recording paths, relative audio directory: saved relative to it, loaded back, n cycles -/
+theorem C01_roundtrip_dir_relative (c : Collection) (A : PPath) (hwf : WF c) (hA : A.root = "")
+    (hin : ∀ r ∈ recsOf c.trav, r.path.root = "" ∧ A.parts <+: r.path.parts) :
+    (∃ d, save c (some A) = .ok d ∧ load d (some A) = .ok c) ∧ ∀ n, cycles (some A) (some A) n c = .ok c := by
+  have hin' : ∀ r ∈ recsOf c.trav, inside r.path A := fun r hr => ⟨(hin r hr).1.trans hA.symm, (hin r hr).2⟩
+  exact ⟨C01_roundtrip_dir c A hwf hin', C01_fixpoint_dir c A hwf hin'⟩
+example : WF exEvalRel ∧ exRelDir.root = "" ∧
+    ∀ r ∈ recsOf exEvalRel.trav, r.path.root = "" ∧ exRelDir.parts <+: r.path.parts :=
+  ⟨wf_exEvalRel, rfl, by decide +kernel⟩
+example : cycles (some exRelDir) (some exRelDir) 3 exEvalRel = .ok exEvalRel := by decide +kernel
+/-- the directory as a caller may spell it: `./data/`, `data/.`, `data//` are the directory `data` -/
+example : parse "./data/" = exRelDir ∧ parse "data/." = exRelDir ∧ parse "data//" = exRelDir
+    ∧ parse "data" = exRelDir := by simp only [parse, splitOn_slash]; decide +kernel
+example : cycles (some (parse "./data/")) (some (parse "data/.")) 2 exEvalRel = .ok exEvalRel := by
+  simp only [parse, splitOn_slash]; decide +kernel
+/-- what is stored is the path below the directory, and the loader prepends the directory: a writer
+    that left a relative path as it is would come back with the directory twice -/
+example : storedPath (some exRelDir) ⟨"", ["data", "night", "a.wav"]⟩ = .ok ⟨"", ["night", "a.wav"]⟩
+    ∧ loadedPath (some exRelDir) ⟨"", ["night", "a.wav"]⟩ = ⟨"", ["data", "night", "a.wav"]⟩
+    ∧ loadedPath (some exRelDir) ⟨"", ["data", "night", "a.wav"]⟩ = ⟨"", ["data", "data", "night", "a.wav"]⟩ := by
+  decide +kernel
+
+/-- the current directory (`"."`, `"./"`, `""`) contains every relative path: a collection whose
+    recordings all have relative paths round-trips under it, for every number of cycles -/
+theorem C01_fixpoint_dir_dot (c : Collection) (hwf : WF c) (hrel : ∀ r ∈ recsOf c.trav, r.path.root = "") :
+    ∀ n, cycles (some (parse ".")) (some (parse ".")) n c = .ok c := by
+  have hp : parse "." = ⟨"", []⟩ := by simp only [parse, splitOn_slash]; decide +kernel
+  rw [hp]
+  exact C01_fixpoint_dir c ⟨"", []⟩ hwf (fun r hr => inside_dot (hrel r hr))
+example : parse "." = parse "" ∧ parse "./" = parse "." := by simp only [parse, splitOn_slash]; decide +kernel
+example : WF exEvalRel ∧ ∀ r ∈ recsOf exEvalRel.trav, r.path.root = "" :=
+  ⟨wf_exEvalRel, fun r hr => (inside_exEvalRel r hr).2⟩
+
+/-- with an audio directory `A` and any number `n ≥ 1` of cycles: a reachable recording outside `A`
+    makes the very first save fail (`ValueError`) … -/
+theorem C01_cycles_dir_outside (c : Collection) (A : PPath) (r : Recording) (hwf : WF c)
+    (hr : r ∈ recsOf c.trav) (hout : ¬ inside r.path A) (n : Nat) :
+    cycles (some A) (some A) (n + 1) c = .error .invalid :=
+  cycles_succ_of_save_error (save_outside_invalid hwf.recs hr hout) n
+example : WF exEval ∧ exRec ∈ recsOf exEval.trav ∧ ¬ inside exRec.path exDir2 :=
+  ⟨wf_exEval, by decide +kernel, by decide +kernel⟩
+/-- an absolute directory never contains a relative path (and vice versa) -/
+example : cycles (some exDir) (some exDir) 1 exEvalRel = .error .invalid
+    ∧ cycles (some exRelDir) (some exRelDir) 1 exEval = .error .invalid := by decide +kernel
+
+/-- … so, for every directory (relative or absolute) and every `n ≥ 1`, `n` save/load cycles under
+    the directory give the collection back **exactly when** every reachable recording lies inside it -/
+theorem C01_fixpoint_dir_iff (c : Collection) (A : PPath) (hwf : WF c) (n : Nat) :
+    cycles (some A) (some A) (n + 1) c = .ok c ↔ ∀ r ∈ recsOf c.trav, inside r.path A := by
+  constructor
+  · intro h r hr
+    by_cases hin : inside r.path A
+    · exact hin
+    · rw [C01_cycles_dir_outside c A r hwf hr hin n] at h
+      cases h
+  · intro hin
+    exact C01_fixpoint_dir c A hwf hin (n + 1)
+example : WF exEvalRel := wf_exEvalRel
 
 /-- the document carries the collection's type, and the loaded collection has the document's -/
 theorem C01_same_type_save (c : Collection) (sd : Option PPath) (d : Doc) (hs : save c sd = .ok d) :
@@ -227,6 +316,37 @@ theorem C01_load_file_type (r : LoadRequest) (d : Doc) (dir : Option PPath) (c :
             rw [htd, ← hd]
             exact C01_same_type_load d dir c2 hl2
           · cases hl
+
+/-- `io.save` reaches the document conversion exactly when the format is `aoef`, given or inferred
+    from a `.json` suffix; every refusal is a `ValueError` -/
+theorem C01_save_gate_iff (r : SaveRequest) :
+    (saveGate r = .ok () ↔ (r.format = some "aoef" ∨ (r.format = none ∧ r.suffixJson = true)))
+    ∧ (saveGate r ≠ .ok () → saveGate r = .error .invalid) := by
+  rcases r with ⟨sj, fmt⟩
+  cases sj <;> rcases fmt with _ | f <;>
+    simp [saveGate, bind, Except.bind, pure, Except.pure] <;>
+    (repeat' split) <;> simp_all
+
+/-- a file that `io.save` accepted is accepted by `io.load` with the same `format` argument exactly
+    when it has the `.json` suffix (an explicit `format="aoef"` writes to any name, the loader insists
+    on the suffix) and carries the supported version -/
+theorem C01_save_load_gate (suffixJson : Bool) (format : Option String) (docType version : String)
+    (hs : saveGate ⟨suffixJson, format⟩ = .ok ()) :
+    loadGate ⟨true, suffixJson, format, none, version, docType⟩ = .ok () ↔
+      suffixJson = true ∧ version = AOEF_VERSION := by
+  have h := (C01_save_gate_iff ⟨suffixJson, format⟩).1.1 hs
+  rw [C01_load_gate_iff]
+  constructor
+  · intro h'; exact ⟨h'.2.2.1, h'.2.2.2.2⟩
+  · intro h'
+    have hf : format = none ∨ format = some "aoef" := by
+      rcases h with h | h
+      · exact Or.inr h
+      · exact Or.inl h.1
+    exact ⟨hf, rfl, h'.1, Or.inl rfl, h'.2⟩
+example : saveGate ⟨false, some "aoef"⟩ = .ok () ∧ saveGate ⟨false, none⟩ = .error .invalid
+    ∧ saveGate ⟨true, some "other"⟩ = .error .invalid ∧ saveGate ⟨true, none⟩ = .ok () := by decide
+example : loadGate ⟨true, false, some "aoef", none, "1.1.0", "dataset"⟩ = .error .invalid := by decide
 
 example : loadGate ⟨true, true, none, some "dataset", "1.1.0", "dataset"⟩ = .ok () := by decide
 example : loadGate ⟨true, true, none, some "recording_set", "1.1.0", "dataset"⟩ = .error .invalid := by decide
